@@ -12,6 +12,7 @@ import (
 	"verif/internal/exact"
 	"verif/internal/gen"
 	"verif/internal/h"
+	"verif/internal/refmodel"
 )
 
 // C08 — ring / polygon clipping keeps exactly the region inside the box.
@@ -502,7 +503,7 @@ func init() {
 					}
 					gotMP := clip.MultiPolygon(b, cloneMP(mp))
 					c.Eval()
-					if !orb.Equal(gotMP, expMP) && !(len(gotMP) == 0 && len(expMP) == 0) {
+					if !refmodel.EqualValues(gotMP, expMP) && !(len(gotMP) == 0 && len(expMP) == 0) {
 						c.Fail("", "clip.MultiPolygon is not the list of non-empty clipped members", map[string]interface{}{"box": box, "multipolygon": model, "got": sv(gotMP), "expected": sv(expMP)})
 					} else if gotMP != nil && !partsIndependent(gotMP) {
 						c.Fail("", "rings of one clip.MultiPolygon result share memory: appending to one ring overwrites another", map[string]interface{}{"box": box, "multipolygon": model, "now": sv(gotMP)})
@@ -515,11 +516,11 @@ func init() {
 							c.Fail("", "clip.Geometry(MultiPolygon) not nil although nothing remains", map[string]interface{}{"box": box, "multipolygon": model, "got": sv(g)})
 						}
 					case len(expMP) == 1:
-						if !orb.Equal(g, expMP[0]) {
+						if !refmodel.EqualValues(g, expMP[0]) {
 							c.Fail("", "clip.Geometry(MultiPolygon) with one remaining member is not that polygon", map[string]interface{}{"box": box, "multipolygon": model, "got": sv(g)})
 						}
 					default:
-						if !orb.Equal(g, expMP) {
+						if !refmodel.EqualValues(g, expMP) {
 							c.Fail("", "clip.Geometry(MultiPolygon) differs from clip.MultiPolygon", map[string]interface{}{"box": box, "multipolygon": model, "got": sv(g)})
 						}
 					}
@@ -586,7 +587,7 @@ func init() {
 					c.Evals(len(coll))
 					got := clip.Collection(b, orb.Clone(coll).(orb.Collection))
 					c.Eval()
-					if !(len(got) == 0 && len(exp) == 0) && !orb.Equal(got, exp) {
+					if !(len(got) == 0 && len(exp) == 0) && !refmodel.EqualValues(got, exp) {
 						c.Fail("", "clip.Collection is not the list of non-nil clipped members", map[string]interface{}{"box": box, "collection": sv(coll), "got": sv(got), "expected": sv(exp)})
 					}
 					g := clip.Geometry(b, orb.Clone(coll))
@@ -631,7 +632,7 @@ func init() {
 						if eg == nil {
 							continue
 						}
-						if j >= len(layer.Features) || layer.Features[j].ID != float64(i) || !orb.Equal(layer.Features[j].Geometry, eg) {
+						if j >= len(layer.Features) || layer.Features[j].ID != float64(i) || !refmodel.EqualValues(layer.Features[j].Geometry, eg) {
 							okLayer = false
 							break
 						}
